@@ -587,14 +587,18 @@ def run(ctx: core.Ctx) -> None:
     ctx.assumptions += ['reference model: one terminal reply per command in order; refused commands change nothing; a selector matches a neighbor iff its address matches (or *) and every term equals the neighbor setting']
     pool = mp.Pool(min(16, os.cpu_count() or 1))
     try:
-        for job, (viols, outcome) in zip(jobs, pool.imap(run_sequence, jobs, chunksize=8)):
+        results = pool.map(run_sequence, jobs, chunksize=8)
+        core.replay_check(ctx, pool, run_sequence, jobs, results, stride=32)
+        for job, (viols, outcome) in zip(jobs, results):
             ctx.count('executions')
             ctx.count('transitions', len(job[0]) + len(job[1]))
             ctx.add_to_set('outcomes', outcome)
             for sig, what in viols:
                 ctx.violation(sig, f'[API v{job[2]}] {what}', {'kind': 'seq', 'seq': list(job[0]), 'cuts': list(job[1]), 'version': job[2]})
         mjobs = multi_jobs(ctx.tier)
-        for job, (viols, outcome) in zip(mjobs, pool.imap(run_multi, mjobs, chunksize=8)):
+        mresults = pool.map(run_multi, mjobs, chunksize=8)
+        core.replay_check(ctx, pool, run_multi, mjobs, mresults, stride=32)
+        for job, (viols, outcome) in zip(mjobs, mresults):
             ctx.count('executions')
             ctx.count('transitions', len(job))
             ctx.add_to_set('outcomes', outcome)
